@@ -4,9 +4,12 @@ import json, glob, os
 V = os.path.dirname(os.path.dirname(os.path.abspath(__file__)))
 checks = []
 claimed = set()
+ready = set(open(f"{V}/meta/READY").read().split())
 for f in sorted(glob.glob(f"{V}/meta/C*.json")):
     m = json.load(open(f))
     pid = m["property_id"]
+    if pid not in ready:
+        continue
     claimed.add(pid)
     checks.append({
         "property_id": pid,
